@@ -67,7 +67,9 @@ CLAIMS = {
              "that moment the only files with unsynced bytes are ones whose AppendFile announcement is still queued behind the "
              "acknowledged flush); a failed sync sends a negative callback to the whole batch and keeps the file tracked; "
              "callbacks fire in request order, each at most once, exactly once without faults (with the model's fuel); the "
-             "coverage invariant is preserved by every call/flush/worker step. Implementation-side oracle on the interposed "
+             "coverage invariant is preserved by every call/flush/worker step. System level (c04_positive_callback_means_durable): for "
+             "every legal history with any worker outcomes, a positive callback of a flush implies that at the end of the history every "
+             "live chunk file is written and durable up to the journal end of that flush. Implementation-side oracle on the interposed "
              "trace (per-file written/synced counters) under injected EIO / short writes at every call.",
              technique="Lean 4 invariants over the worker small-step machine + trace oracle under fault injection + correspondence",
              ref="8 C04"),
